@@ -268,9 +268,13 @@ def e2e(out, r, tier, findings, stats):
                 al, tg = nodes[bypass[0]], nodes[sl.resolve(nodes, bypass[0])]
                 if g[0] == "targets":
                     extra = sorted(sl.label_of(nodes[i]) for i in g[1] - proj(want)[1]) if want[0] == "sel" else sorted(res["trace"])
-                    out.known(f["id"], "class=%s `grog %s` (cwd //%s): alias %s matches the pattern, its target %s fails the filters (%s); "
-                                       "commands that ran although no pattern/filter match depends on them: %s" % (
-                                           ALIAS_CLASS, " ".join(res["args"]), cfg["cur"], sl.label_of(al), sl.label_of(tg), filt_desc(cfg), ",".join(extra)))
+                    text = ("class=%s `grog %s` (cwd //%s): alias %s matches the pattern, its target %s fails the filters (%s); "
+                            "commands that ran although no pattern/filter match depends on them: %s" % (
+                                ALIAS_CLASS, " ".join(res["args"]), cfg["cur"], sl.label_of(al), sl.label_of(tg), filt_desc(cfg), ",".join(extra)))
+                    if nodes is wit:
+                        out.known_hit[f["id"]] = text      # the witness of C12_selection_is_closure_refuted on the real binary
+                    else:
+                        out.known(f["id"], text)
                 else:
                     out.known(f["id"], "class=%s `grog %s`: alias %s -> %s (filtered out: %s) turns the build into a platform error" % (
                         ALIAS_CLASS, " ".join(res["args"]), sl.label_of(al), sl.label_of(tg), filt_desc(cfg)))
